@@ -41,6 +41,9 @@ def cmd_replay(path):
             return 1
         print('not reproduced on the current tree')
         return 0
+    elif doc.get('engine') == 'msanprobe':
+        from . import msanprobe as M
+        return M.replay(doc, path)
     elif doc.get('engine') == 'genm3':
         from . import genm3 as G
         return G.replay(doc, path)
